@@ -538,6 +538,14 @@ def rule_authority(ck, methods, all_acc):
         if isinstance(v, ast.Constant) and v.value is False:
             continue
         v = resolve(fi, v) if v is not None else v
+        if isinstance(v, ast.Name):
+            # single-exit style: a result variable; every value it can hold is judged (False, or a membership test)
+            from ..x_resolve import _bindings as _bs
+            vals = _bs(fi, v.id)
+            if vals and all(b_ is not None for b_ in vals):
+                pos = [b_ for b_ in vals if not q.is_const(b_, False)]
+                if len(pos) == 1:
+                    v = pos[0]
         ok = isinstance(v, ast.Compare) and len(v.ops) == 1 and isinstance(v.ops[0], ast.In) and q.dotted(v.comparators[0]) == LIST
         if not ok and not (isinstance(v, ast.Compare) and any(q.dotted(c_) == CACHE for c_ in v.comparators)):
             raise AnalysisError("C06.authority: __contains__ answers with %s, not a recognised membership test" % (q.unparse(v) if v is not None else "None"))
